@@ -147,6 +147,13 @@ static int run_standalone(const char *path) {
             fprintf(stderr, "  %s\n", vm.error_msg);
         }
         exit_code = 1;
+    } else {
+        /* The value main returned is the exit status, exactly as with
+         * `nano_virt --run` and the native wrapper executable. */
+        NanoValue main_result = vm_get_result(&vm);
+        if (main_result.tag == TAG_INT) {
+            exit_code = (int)main_result.as.i64;
+        }
     }
 
     /* Stop co-process if it was launched */
